@@ -694,4 +694,10 @@ def run(case, ctx):
         run_noise_threads(ctx, hist, r, bool(i % 2), det0)
     else:
         hist = make_history(r, force_workers=int(r.integers(2, 4)))
-        run_processes(ctx, hist, r, bool(i % 2), use_pool=(i % 4 == 3), det0=det0, pool_first=(i % 8 == 7), continue_file=(i % 5 != 4))
+        if i % 4 == 1:
+            # on a file system with coarse modification times (2 s grid): all writes of the history fall into one tick
+            with sched.coarse_timestamps(2.0):
+                ctx.count("C16.process_histories_on_coarse_timestamps")
+                run_processes(ctx, hist, r, bool(i % 2), use_pool=False, det0=dict(det0, coarse_timestamps=True), pool_first=False, continue_file=(i % 5 != 4))
+        else:
+            run_processes(ctx, hist, r, bool(i % 2), use_pool=(i % 4 == 3), det0=det0, pool_first=(i % 8 == 7), continue_file=(i % 5 != 4))
